@@ -41,9 +41,9 @@ class Mixin:
     pass
 
 
-def _make_method(name):
+def _make_method(name, defcls=None):
     def method(self, *args, **kwargs):
-        self._run.on_call(self, name, args, kwargs)
+        self._run.on_call(self, name, args, kwargs, defcls)
     method.__name__ = name
     return method
 
@@ -69,6 +69,11 @@ for _n in EVENTS + METHODS:
 def decode_class(p):
     parent = p % 7
     p //= 7
+    if p % 4 == 0:
+        # left undecorated (or decorated with nothing): the class shares its parent's mapping object, while it
+        # overrides the callback methods like every generated class
+        return {'parent': parent, 'names': [], 'maps': [], 'mixin': (p // 4) % 3}
+    p //= 4
     bits = p % 32
     p //= 32
     nmaps = (0, 0, 1, 1, 2)[p % 5]
@@ -81,7 +86,7 @@ def decode_class(p):
     return {'parent': parent, 'names': [i for i in range(5) if bits >> i & 1], 'maps': maps, 'mixin': mixin}
 
 
-CLASS_SPACE = 7 * 32 * 5 * 900 * 3
+CLASS_SPACE = 7 * 4 * 32 * 5 * 900 * 3
 
 
 def decode_op(t):
@@ -143,7 +148,9 @@ class Run:
                 bases = (type('Mx%d' % i, (), {}),) + bases
             elif spec['mixin'] == 2:
                 bases = bases + (type('Mx%d' % i, (), {}),)
-            cls = type('H%d' % i, bases, {})
+            # every class overrides every callback method: which class's function runs is observable, and it must
+            # be the one a normal attribute lookup on the handler's own class finds
+            cls = type('H%d' % i, bases, {nme: _make_method(nme, i) for nme in EVENTS + METHODS})
             names = [EVENTS[k] for k in spec['names']]
             maps = {EVENTS[e]: METHODS[m] for e, m in spec['maps']}
             try:
@@ -169,6 +176,8 @@ class Run:
 
     def check_mappings(self, where):
         for j, (cls, exp) in enumerate(zip(self.classes, self.expected)):
+            if cls.__name__ == 'Mute':
+                continue
             got = getattr(cls, '__events__', None)
             if exp is None:
                 if got is not None:
@@ -179,9 +188,13 @@ class Run:
                           where=where, cls=j, got=None if got is None else dict(got), expected=exp)
 
     # ---- (b) histories --------------------------------------------------------------------------------
-    def on_call(self, h, method, args, kwargs):
+    def on_call(self, h, method, args, kwargs, defcls=None):
         if not self.stack:
             self.viol('callback_outside_any_dispatch', handler=repr(h), method=method)
+        if defcls is not None and defcls != self.hcls[h.ix]:
+            self.viol('called_the_method_mapped_to_the_event', handler=h.ix, method=method,
+                      function_defined_in_class=defcls, handler_class=self.hcls[h.ix],
+                      note='an overriding subclass got the function of a base class')
         self.stack[-1].calls.append((h.ix, method, args, kwargs))
         script = self.scripts.pop(h.ix, None)
         if script is not None and len(self.stack) < 3:
@@ -298,6 +311,10 @@ class Run:
 
     def run(self):
         self.build_classes()
+        # a handler class that opted out of every event (empty mapping): registered, removed and queried like any
+        # other handler, never called
+        self.classes.append(type('Mute', (Rec,), {'__events__': {}}))
+        self.expected.append({})
         handler_classes = [i for i, e in enumerate(self.expected) if e is not None]
         if not handler_classes:
             self.flags['no_handler_class'] += 1
